@@ -108,7 +108,8 @@ Record s3_state := mk_s3 {
   s3_password : bool * bytes; s3_tournament : option (bool * bytes); s3_extras : list (bytes * bytes);
   s3_players : list gs3_player; s3_teams : list gs3_team;
   s3_challenge : Z; s3_group : N;          (* players per packet *)
-  s3_pid : bool }.
+  s3_pid : bool;
+  s3_resend : bool }.                      (* a name cut at a packet end is sent again, complete, in the next packet *)
 Definition s3_vars (s : s3_state) : list (bytes * bytes) :=
   [(str "hostname", s3_name s); (str "gamever", s3_ver s); (str "mapname", s3_map s); (str "gametype", s3_mode s);
    (str "maxplayers", show_N (s3_max s)); (str "password", snd (s3_password s))]
@@ -119,13 +120,18 @@ Definition s3_vars (s : s3_state) : list (bytes * bytes) :=
 (* one field of a section: name, index of the first item, items, end marker *)
 Definition enc_field (name : string) (offset : N) (items : list bytes) : bytes :=
   cstr (str name) ++ [offset mod 256] ++ flat_map cstr items ++ nul.
-Definition s3_player_fields (pid : bool) (offset : N) (ps : list gs3_player) : bytes :=
-  enc_field "player_" offset (map p3_name ps) ++ enc_field "score_" offset (map (fun p => show_Z (p3_score p)) ps)
+Definition s3_player_fields_n (pid : bool) (offset : N) (names : list bytes) (ps : list gs3_player) : bytes :=
+  enc_field "player_" offset names ++ enc_field "score_" offset (map (fun p => show_Z (p3_score p)) ps)
   ++ enc_field "ping_" offset (map (fun p => show_N (p3_ping p)) ps)
   ++ enc_field "team_" offset (map (fun p => show_N (p3_team p)) ps)
   ++ enc_field "deaths_" offset (map (fun p => show_N (p3_deaths p)) ps)
   ++ (if pid then enc_field "pid_" offset (map (fun p => show_N (p3_ping p + 100)) ps) else [])
   ++ enc_field "skill_" offset (map (fun p => show_N (p3_skill p)) ps).
+Definition s3_player_fields (pid : bool) (offset : N) (ps : list gs3_player) : bytes :=
+  s3_player_fields_n pid offset (map p3_name ps) ps.
+(* the last name of a packet that is followed by another one is cut short ... *)
+Definition cut_last (names : list bytes) : list bytes :=
+  match rev names with l :: r => rev ((match l with c :: _ => firstn (utf8_first_len c) l | [] => [] end) :: r) | [] => [] end.
 Definition s3_team_fields (ts : list gs3_team) : bytes :=
   enc_field "team_t" 0 (map t3_name ts) ++ enc_field "score_t" 0 (map (fun t => show_Z (t3_score t)) ts).
 Fixpoint groups {A} (fuel : nat) (k : nat) (l : list A) : list (list A) :=
@@ -134,17 +140,27 @@ Fixpoint groups {A} (fuel : nat) (k : nat) (l : list A) : list (list A) :=
   | O, _ => [l]
   | S f, _ => firstn k l :: groups f k (skipn k l)
   end.
-Fixpoint s3_bodies (pid : bool) (offset : N) (gs : list (list gs3_player)) : list bytes :=
+(* ... and the next packet starts one index earlier with that player again, complete *)
+Fixpoint s3_bodies_r (pid resend : bool) (offset : N) (prev : option gs3_player) (gs : list (list gs3_player)) : list bytes :=
   match gs with
   | [] => []
-  | g :: r => ([1] ++ s3_player_fields pid offset g ++ nul) :: s3_bodies pid (offset + lenN g) r
+  | g :: r =>
+      let more := match r with [] => false | _ => true end in
+      let '(off, items) := match prev with
+                           | Some p => if resend then (offset - 1, p :: g) else (offset, g)
+                           | None => (offset, g)
+                           end in
+      let names := if resend && more then cut_last (map p3_name items) else map p3_name items in
+      ([1] ++ s3_player_fields_n pid off names items ++ nul)
+      :: s3_bodies_r pid resend (offset + lenN g) (match rev g with l :: _ => Some l | [] => prev end) r
   end.
+Definition s3_bodies (pid : bool) (offset : N) (gs : list (list gs3_player)) : list bytes := s3_bodies_r pid false offset None gs.
 Definition s3_packets (s : s3_state) : list bytes :=
   let k := S (N.to_nat (s3_group s)) in
   let gs := groups (length (s3_players s)) k (s3_players s) in
   let vars := flat_map (fun kv => cstr (fst kv) ++ cstr (snd kv)) (s3_vars s) ++ nul in
   let teams := [2] ++ s3_team_fields (s3_teams s) ++ nul in
-  let bodies := match s3_bodies (s3_pid s) 0 gs with
+  let bodies := match s3_bodies_r (s3_pid s) (s3_resend s) 0 None gs with
                 | [] => [vars ++ [1] ++ s3_player_fields (s3_pid s) 0 [] ++ nul ++ teams]
                 | [b] => [vars ++ b ++ teams]
                 | b :: r => (vars ++ b) :: (removelast r ++ [last r [] ++ teams])
@@ -221,5 +237,5 @@ Definition gen_s3 : G s3_state :=
                                     gret (mk_gs3p nm (to_signed 32 sc) pg tm de sk)) in
   gen* nt := below 4 in
   gen* ts := grepeat (N.to_nat nt) (gen* nm := gval1 in gen* sc := gnum 32 in gret (mk_gs3t nm (to_signed 32 sc))) in
-  gen* ch := gnum 32 in gen* grp := pick 9 [0; 2; 5; 9; 9] in gen* pid := chance 1 3 in
-  gret (mk_s3 name mapn mode ver maxp minp num pw tour extras ps ts (to_signed 32 ch) grp pid).
+  gen* ch := gnum 32 in gen* grp := pick 9 [0; 2; 5; 9; 9] in gen* pid := chance 1 3 in gen* rs := chance 1 3 in
+  gret (mk_s3 name mapn mode ver maxp minp num pw tour extras ps ts (to_signed 32 ch) grp pid rs).
